@@ -591,6 +591,7 @@ func (p *Builder) writeProfile(profile Profile, idx int, allowLabel string) {
 		"deny":      "deny",
 		"pass":      "deny",
 		"next-tier": "deny",
+		"log":       "log",
 	}
 	log.Debugf("Start of profile %q %d", profile.Name, idx)
 	p.writePolicyRules(profile, actionLabels, legDest)
